@@ -647,6 +647,16 @@ for cell in cells:
                 import functools
                 t = functools.partial(lambda x=1: 1)
                 call = lambda f: f()
+            elif c == "staticmethod_obj":
+                def _plain(x=1): return 1
+                t = staticmethod(_plain)
+                t.route = "/static"          # what a foreign decorator attached to the descriptor
+                call = lambda f: f.__func__()
+            elif c == "classmethod_obj":
+                def _plain(cls, x=1): return 1
+                t = classmethod(_plain)
+                t.route = "/class"
+                call = lambda f: f.__func__(object)
             else:
                 def t(self, x=1): return 1
                 call = lambda f: f(object())
